@@ -81,8 +81,8 @@ def histories(draw, tier):
 
     for _ in range(nsteps):
         if sess is None:
-            kind = draw(st.sampled_from(["open"] * 5 + ["mismatch", "read"]))
-            if kind == "mismatch" and not taken:
+            kind = draw(st.sampled_from(["open"] * 10 + ["mismatch", "mismatch", "read", "read", "linkify"]))
+            if kind in ("mismatch", "linkify") and not taken:
                 kind = "open"
             if kind == "open":
                 d = draw(st.integers(0, ndirs - 1))
@@ -117,6 +117,10 @@ def histories(draw, tier):
             elif kind == "mismatch":
                 dirs_with = sorted(set(taken.values()))
                 steps.append({"s": "mismatch", "dir": draw(st.sampled_from(dirs_with)), "param": draw(st.sampled_from(MISMATCH))})
+            elif kind == "linkify":
+                # what `drf ln --symbolic` / moving data to another disk and linking it back leaves: the finalized files of
+                # a channel directory become symbolic links to their content
+                steps.append({"s": "linkify", "dir": draw(st.sampled_from(sorted(set(taken.values()))))})
             else:
                 steps.append({"s": "read"})
             continue
@@ -209,7 +213,16 @@ def histories(draw, tier):
     if sess is not None:
         steps.append({"s": "close"})
     steps.append({"s": "read"})
-    return {"cfg": cfg, "ndirs": ndirs, "steps": steps}
+    # the environment of the recording process (none of it is mentioned by the property, so none of it may matter):
+    # length of the channel path, current directory, relative / decorated path spellings, a reader that stays open over
+    # the whole history, refused calls repeated many times with few file descriptors to spare
+    env = {
+        "pad": draw(st.sampled_from([0, 0, 0, 0, 150, 300, 600])),
+        "cwd": draw(st.sampled_from([None, None, None, "chan", "chan", "top", "rel", "rel-dot"])),
+        "keep_reader": draw(st.booleans()),
+        "repeat": draw(st.sampled_from([1, 1, 1, 2, 40])),
+    }
+    return {"cfg": cfg, "ndirs": ndirs, "steps": steps, "env": env}
 
 
 def strategy(tier):
@@ -294,12 +307,19 @@ def mismatched(cfg, param):
 
 
 def final_hashes(tops):
+    import hashlib
     out = {}
     for t in tops:
         snap = treeutil.snapshot(t)
         for rel, v in snap.items():
-            if v[0] == "f" and not os.path.basename(rel).startswith("tmp."):
+            if os.path.basename(rel).startswith("tmp."):
+                continue
+            if v[0] == "f":
                 out[os.path.join(t, rel)] = v[2]
+            elif v[0] == "l" and os.path.isfile(os.path.join(t, rel)):
+                # a finalized file that was turned into a symbolic link (step "linkify"): its content counts
+                with open(os.path.join(t, rel), "rb") as f:
+                    out[os.path.join(t, rel)] = hashlib.sha256(f.read()).hexdigest()
     return out
 
 
@@ -326,10 +346,43 @@ def run_case(case, keep=None, on_tree=None):
     restart_inside = any(s["s"] == "open" and s.get("mode") in ("inside", "earlier", "subdir-before") for s in case["steps"])
     refusal_then_ok = False
     had_refusal = False
-    with rfharness.scratch("c11") as base:
+    env = case.get("env") or {}
+    old_cwd = os.getcwd()
+    old_nofile = None
+    kept = {"rd": None, "tops": None} if env.get("keep_reader") else None
+    with rfharness.scratch("c11") as base0:
+        base = base0
+        pad = env.get("pad", 0)
+        while pad > 0:
+            comp = "p" * min(pad, 180)
+            base = os.path.join(base, comp)
+            pad -= len(comp) + 1
         tops = [os.path.join(base, "top%d" % i) for i in range(case["ndirs"])]
         for t in tops:
             os.makedirs(os.path.join(t, "ch0"))
+        cwd_mode = env.get("cwd")
+
+        def spell(full):
+            """how a directory is named to the library: absolute, or relative to the current directory (plain / decorated)"""
+            if cwd_mode == "rel":
+                return os.path.relpath(full, base)
+            if cwd_mode == "rel-dot":
+                return "./" + os.path.relpath(full, base) + "/"
+            return full
+
+        if cwd_mode == "chan":
+            os.chdir(os.path.join(tops[0], "ch0"))  # a directory that holds entries named like the subdirectories
+        elif cwd_mode == "top":
+            os.chdir(tops[0])
+        elif cwd_mode in ("rel", "rel-dot"):
+            os.chdir(base)
+        repeat = max(1, env.get("repeat", 1))
+        if repeat > 8:
+            # many refused calls with few descriptors to spare: a refusal that leaks a handle makes a later valid call fail
+            import resource
+            old_nofile = resource.getrlimit(resource.RLIMIT_NOFILE)
+            nopen = len(os.listdir("/proc/self/fd"))
+            resource.setrlimit(resource.RLIMIT_NOFILE, (min(old_nofile[1], nopen + 24), old_nofile[1]))
         w = None
         cfg = None
         hashes = {}
@@ -343,13 +396,19 @@ def run_case(case, keep=None, on_tree=None):
                       cfg = dict(cfg0, start=st_["start"], salt=st_["salt"], uuid=st_["uuid"])
                       try:
                           with rfharness.quiet_fds():
-                              w = rfharness.open_py_writer(cfg, os.path.join(tops[st_["dir"]], "ch0"))
+                              w = rfharness.open_py_writer(cfg, spell(os.path.join(tops[st_["dir"]], "ch0")))
                       except Exception as e:
                           fail("open-refused", "step %d: session with identical parameters refused: %s" % (si, e))
                           raise _Stop()
                   elif kind == "close":
-                      with rfharness.quiet_fds():
-                          w.close()
+                      try:
+                          with rfharness.quiet_fds():
+                              w.close()
+                      except Exception as e:
+                          # every call of this session was either accepted or refused without effect: close must succeed
+                          w = None
+                          fail("close-failed-after-refusal" if had_refusal else "close-failed", "step %d: %s: %s" % (si, type(e).__name__, e))
+                          raise _Stop()
                       w = None
                       last_written = None
                   elif kind == "mismatch":
@@ -358,7 +417,7 @@ def run_case(case, keep=None, on_tree=None):
                       bad = mismatched(dict(cfg0, start=cfg0["start"], salt=1, uuid="sessx"), st_["param"])
                       try:
                           with rfharness.quiet_fds():
-                              w2 = rfharness.open_py_writer(bad, chd)
+                              w2 = rfharness.open_py_writer(bad, spell(chd))
                           if st_["param"] == "nd-equiv":
                               # (only reached when the session was wrongly accepted) let it record one file in a free later
                               # period, so that checks inspecting the files see what such a session leaves behind
@@ -376,9 +435,28 @@ def run_case(case, keep=None, on_tree=None):
                       after = treeutil.snapshot(chd, mtime=True)
                       if after != before:
                           fail("mismatch-changed-directory:" + st_["param"], "step %d: %s" % (si, treeutil.diff(before, after)))
+                  elif kind == "linkify":
+                      chd = os.path.join(tops[st_["dir"]], "ch0")
+                      store = os.path.join(base, "store%d" % st_["dir"])
+                      for sub in sorted(os.listdir(chd)):
+                          sp = os.path.join(chd, sub)
+                          if not os.path.isdir(sp) or os.path.islink(sp):
+                              continue
+                          for fn in sorted(os.listdir(sp)):
+                              fp = os.path.join(sp, fn)
+                              if fn.startswith("rf@") and fn.endswith(".h5") and not os.path.islink(fp):
+                                  os.makedirs(os.path.join(store, sub), exist_ok=True)
+                                  os.rename(fp, os.path.join(store, sub, fn))
+                                  os.symlink(os.path.join(store, sub, fn), fp)
                   elif kind == "write":
                       op = st_["op"]
                       r = rfharness.py_issue(w, cfg, op, op["cid"])
+                      if st_["expect"] != "ok" and r[0] != "ok":
+                          for _rep in range(repeat - 1):
+                              # the same refused call again (and again): each one must be refused and change nothing
+                              r = rfharness.py_issue(w, cfg, op, op["cid"])
+                              if r[0] == "ok":
+                                  break
                       raw = rfmodel.call_bytes(cfg, op["cid"], op["len"])
                       runs = []
                       if op["op"] == "w":
@@ -416,7 +494,7 @@ def run_case(case, keep=None, on_tree=None):
                       open_win = None
                       if w is not None and last_written is not None:
                           open_win = rfmodel.window(cfg0, rfmodel.file_ms(cfg0, last_written))
-                      _read_check(cfg0, tops, definite, maybe, file_owner_windows, fail, si, open_win)
+                      _read_check(cfg0, tops, definite, maybe, file_owner_windows, fail, si, open_win, spell=spell, kept=kept)
                   # finalized files never change
                   now = final_hashes(tops)
                   for p, h in hashes.items():
@@ -442,13 +520,22 @@ def run_case(case, keep=None, on_tree=None):
                     fail("finalized-file-disappeared", "after the stopped history was closed: %s" % os.path.relpath(p, base))
                 elif now[p] != h:
                     fail("finalized-file-changed", "after the stopped history was closed: %s" % os.path.relpath(p, base))
-            _read_check(cfg0, tops, definite, maybe, file_owner_windows, fail, len(case["steps"]), None, values_only=True)
+            _read_check(cfg0, tops, definite, maybe, file_owner_windows, fail, len(case["steps"]), None, values_only=True, spell=spell)
           if on_tree is not None and w is None:
             on_tree(tops, cfg0, fail)
         finally:
             if w is not None:
                 with rfharness.quiet_fds():
-                    w.close()
+                    try:
+                        w.close()
+                    except Exception:
+                        pass
+            if kept and kept["rd"] is not None:
+                kept["rd"].close()
+            if old_nofile is not None:
+                import resource
+                resource.setrlimit(resource.RLIMIT_NOFILE, old_nofile)
+            os.chdir(old_cwd)
     if keep is not None:
         res.failures = [f for f in res.failures if f[0].startswith(tuple(keep))]
     res.nontrivial = restart_inside or refusal_then_ok
@@ -467,14 +554,26 @@ def run_case(case, keep=None, on_tree=None):
     return res
 
 
-def _read_check(cfg, tops, definite, maybe, windows, fail, si, open_win=None, values_only=False):
+def _read_check(cfg, tops, definite, maybe, windows, fail, si, open_win=None, values_only=False, spell=None, kept=None):
     drf = rfharness.drf()
     usable = [t for t in tops if os.path.exists(os.path.join(t, "ch0", "drf_properties.h5"))]
     if not usable or not definite:
         return
     try:
-        with rfharness.quiet_fds():
-            rd = drf.DigitalRFReader(usable)
+        names = [spell(t) for t in usable] if spell else usable
+        if kept is not None:
+            # one reader object stays open across sessions (re-created only when another top-level directory gains the
+            # channel, which a reader learns at construction)
+            if kept["rd"] is None or kept["tops"] != names:
+                if kept["rd"] is not None:
+                    kept["rd"].close()
+                with rfharness.quiet_fds():
+                    kept["rd"] = drf.DigitalRFReader(names)
+                kept["tops"] = names
+            rd = kept["rd"]
+        else:
+            with rfharness.quiet_fds():
+                rd = drf.DigitalRFReader(names if len(names) > 1 else names[0])
         lo = min(min(definite), min(maybe) if maybe else min(definite))
         hi = max(max(definite), max(maybe) if maybe else max(definite))
         spf = rfmodel.samples_per_file_max(cfg)
@@ -541,7 +640,8 @@ def _read_check(cfg, tops, definite, maybe, windows, fail, si, open_win=None, va
         if got and open_win is None and not values_only:
             if tuple(int(x) for x in b) != (min(got), max(got)):
                 fail("union-bounds", "step %d: bounds %r but reads span (%d,%d)" % (si, b, min(got), max(got)))
-        rd.close()
+        if kept is None:
+            rd.close()
     except Exception as e:
         fail("union-read-exception:%s" % type(e).__name__, "step %d: %s" % (si, e))
 
